@@ -550,7 +550,8 @@ Section Walk.
       destruct inc; [apply Rf_upd_task; [tkok|exact B]|exact B].
     - (* CYield *) destruct k as [| |c].
       + now apply Rf_ret.
-      + destruct inc; [now apply Rf_ret|]. apply Rf_blocked. now apply Rf_bare_yield.
+      + destruct inc; [now apply Rf_ret|]. destruct (ckif_spins _ _ _); [|now apply Rf_ret].
+        apply Rf_blocked. now apply Rf_bare_yield.
       + dpair s1 x E. pose proof (Rp_exit _ _ _ _ _ _ _ E B) as H1. destruct x; now apply Rf_ret.
     - (* CSleep *) apply Rf_ret. eapply Rtrans; [exact B|]. eapply (wh_sleep_wake _ _ W); eauto.
     - (* CAexitWait *)
